@@ -1,52 +1,157 @@
 (* C06 - released keys carry a genuine threshold of keyper signatures.
    This file only states the theorems; proofs are in Proofs/KeysSig.v.
 
-   STATE: the model follows the validators as they are on the pinned tree. There the full
-   rule does NOT hold: the loop over the signatures indexes the signer list, so fewer
-   signatures than signers are accepted with the missing ones unchecked and more signatures
-   than signers panic; the service flavour returns Accept as soon as either list is empty.
-   What is proved is (a) the refutations, with concrete witnesses, and (b) the rule on the
-   complement of the failing class (messages whose two lists have the same length).
+   The model follows the validators after the repairs committed in /repo ("fix: gnosis keys
+   validation requires one signature per signer", "fix: shutter service keys validation
+   requires one signature per signer", "fix: shutter service admits unsigned keys only when
+   signers and signatures are both empty"). The defective functions of the pinned tree are
+   kept as legacy_validate_sigs and the rule is refuted for them at the end of this file.
 
    Premises common to the theorems (Section variables of the model, no axioms):
    [H], [H_eqb], [hash] - the hash-tree-root values, their equality test, the root of a tuple;
-   an ECDSA signature is the label [SigBy a h] (signed by address a over root h) or garbage. *)
+   an ECDSA signature is the label [SigBy a h] (signed by address a over root h) or garbage;
+   the keyper set has fewer than 2^31 members (the code casts the signer count to int32). *)
 From Coq Require Import List NArith ZArith Bool Lia.
 From Verif Require Import Lib.Bytes Model.KeysSig Proofs.KeysSig.
 Import ListNotations.
 
-(* ---- refutations on the executable instance ([c_validate_sigs]: root of a tuple = the tuple) *)
+(* For every hash-tree-root function, keyper set, message, signer list and signature list: the
+   Gnosis validator accepts iff the identity list fits the signature data (at most 1024
+   entries) and there are exactly threshold signers, strictly increasing, inside the keyper
+   set, exactly one signature per signer, each the signature of the listed keyper over the
+   message's own (instance, eon, slot, tx pointer, identities); and it never panics. *)
+Theorem C06_gnosis_iff :
+  forall (H : Type) (H_eqb : H -> H -> bool) (hash : tuple -> H),
+    (forall a b, H_eqb a b = true <-> a = b) ->
+    forall ks m signers sigs,
+      (Z.of_nat (length (ks_keypers ks)) < 2 ^ 31)%Z ->
+      (validate_sigs H H_eqb hash Gnosis ks m signers sigs = Accept <->
+       (length (m_ids m) <= 1024)%nat /\
+       Z.of_nat (length signers) = ks_threshold ks /\
+       strictly_increasing signers /\
+       Forall (in_keyper_set (ks_keypers ks)) signers /\
+       length sigs = length signers /\
+       Forall2 (valid_sig_by H hash (ks_keypers ks)
+                             (TGnosis (m_inst m) (m_eon m) (m_slot m) (m_txp m) (m_ids m)))
+               signers sigs)
+      /\ validate_sigs H H_eqb hash Gnosis ks m signers sigs <> Panic.
+Proof. exact gnosis_iff. Qed.
+Print Assumptions C06_gnosis_iff.
 
-(* "exactly one signature per signer" fails: a message naming threshold signers, strictly
-   increasing and inside the set, is accepted with fewer signatures than signers *)
-Theorem C06_gnosis_iff_refuted :
+(* The service validator: the same rule over (instance, eon, identities), with exactly one
+   further accepted case - neither signers nor signatures. *)
+Theorem C06_service_iff :
+  forall (H : Type) (H_eqb : H -> H -> bool) (hash : tuple -> H),
+    (forall a b, H_eqb a b = true <-> a = b) ->
+    forall ks m signers sigs,
+      (Z.of_nat (length (ks_keypers ks)) < 2 ^ 31)%Z ->
+      (validate_sigs H H_eqb hash Service ks m signers sigs = Accept <->
+       (signers = [] /\ sigs = []) \/
+       ((length (m_ids m) <= 1024)%nat /\
+        Z.of_nat (length signers) = ks_threshold ks /\
+        strictly_increasing signers /\
+        Forall (in_keyper_set (ks_keypers ks)) signers /\
+        length sigs = length signers /\
+        Forall2 (valid_sig_by H hash (ks_keypers ks) (TService (m_inst m) (m_eon m) (m_ids m)))
+                signers sigs))
+      /\ validate_sigs H H_eqb hash Service ks m signers sigs <> Panic.
+Proof. exact service_iff. Qed.
+Print Assumptions C06_service_iff.
+
+(* With a hash-tree-root injective on the tuples it is defined on: an accepted message with at
+   least one signer is rejected after any change of a signed field - instance, eon, any
+   identity or their order or number, and for Gnosis slot and tx pointer; and an accepted
+   message (either flavour) is rejected after any change whatsoever of its signature list. *)
+Theorem C06_field_binding :
+  forall (H : Type) (H_eqb : H -> H -> bool) (hash : tuple -> H),
+    (forall a b, H_eqb a b = true <-> a = b) ->
+    (forall t t', hashable t = true -> hashable t' = true -> hash t = hash t' -> t = t') ->
+    forall fl ks m signers sigs,
+      (Z.of_nat (length (ks_keypers ks)) < 2 ^ 31)%Z ->
+      validate_sigs H H_eqb hash fl ks m signers sigs = Accept ->
+      (forall m',
+          signers <> [] ->
+          (m_inst m' <> m_inst m \/ m_eon m' <> m_eon m \/ m_ids m' <> m_ids m \/
+           (fl = Gnosis /\ (m_slot m' <> m_slot m \/ m_txp m' <> m_txp m))) ->
+          exists r, validate_sigs H H_eqb hash fl ks m' signers sigs = Reject r) /\
+      (forall sigs',
+          sigs' <> sigs ->
+          exists r, validate_sigs H H_eqb hash fl ks m signers sigs' = Reject r).
+Proof.
+  intros H H_eqb hash Hs Hi fl ks m signers sigs Hn Ha. split.
+  - intros m' Hne Hd. eapply accept_binds_tuple; eassumption.
+  - intros sigs' Hd. eapply accept_binds_signatures; eassumption.
+Qed.
+Print Assumptions C06_field_binding.
+
+(* The access node accepts exactly when its own common checks and ValidateDecryptionKeysBasic
+   pass and the very same signature function accepts for the keyper set it stores for the
+   message's eon; the keyper's ValidateMessage is the same composition over the database's
+   keyper set (the lookup is abstracted to its result). Hence both accept only under the
+   Gnosis rule, and neither panics. *)
+Theorem C06_accessnode_same_rule :
+  forall (H : Type) (H_eqb : H -> H -> bool) (hash : tuple -> H),
+    (forall a b, H_eqb a b = true <-> a = b) ->
+    forall st lookup m signers sigs,
+      (forall ks, lookup_ks (an_keypersets st) (m_eon m) = Some ks \/ lookup = Some ks ->
+                  (Z.of_nat (length (ks_keypers ks)) < 2 ^ 31)%Z) ->
+      (an_validate H H_eqb hash st m signers sigs = Accept <->
+       an_validate_common st m = Accept /\ validate_basic m = Accept /\
+       exists ks, lookup_ks (an_keypersets st) (m_eon m) = Some ks /\
+                  validate_sigs H H_eqb hash Gnosis ks m signers sigs = Accept) /\
+      (keyper_validate_gnosis H H_eqb hash lookup m signers sigs = Accept <->
+       validate_basic m = Accept /\
+       exists ks, lookup = Some ks /\ validate_sigs H H_eqb hash Gnosis ks m signers sigs = Accept) /\
+      (an_validate H H_eqb hash st m signers sigs = Accept ->
+       exists ks, lookup_ks (an_keypersets st) (m_eon m) = Some ks /\
+                  sig_rule H hash Gnosis ks m signers sigs) /\
+      (keyper_validate_gnosis H H_eqb hash lookup m signers sigs = Accept ->
+       exists ks, lookup = Some ks /\ sig_rule H hash Gnosis ks m signers sigs) /\
+      an_validate H H_eqb hash st m signers sigs <> Panic /\
+      keyper_validate_gnosis H H_eqb hash lookup m signers sigs <> Panic.
+Proof.
+  intros H H_eqb hash Hs st lookup m signers sigs Hn.
+  split; [apply an_validate_accept|]. split; [apply keyper_validate_accept|].
+  pose proof (an_accept_only_if H H_eqb hash Hs st m signers sigs (fun ks E => Hn ks (or_introl E))) as [A1 A2].
+  pose proof (keyper_accept_only_if H H_eqb hash Hs lookup m signers sigs (fun ks E => Hn ks (or_intror E))) as [K1 K2].
+  repeat split; assumption.
+Qed.
+Print Assumptions C06_accessnode_same_rule.
+
+(* ---- the validators of the pinned tree (before the repairs), on the executable instance
+   ([c_legacy_validate_sigs]: root of a tuple = the tuple) *)
+
+(* "exactly one signature per signer" failed: a message naming threshold signers, strictly
+   increasing and inside the set, was accepted with fewer signatures than signers *)
+Theorem C06_legacy_gnosis_iff_refuted :
   exists ks m signers sigs,
-    c_validate_sigs Gnosis ks m signers sigs = Accept /\ (length sigs < length signers)%nat /\
+    c_legacy_validate_sigs Gnosis ks m signers sigs = Accept /\
+    (length sigs < length signers)%nat /\
     ~ sig_rule tuple (fun t => t) Gnosis ks m signers sigs.
 Proof.
   exists wit_ks, (wit_msg Gnosis), [0%N; 1%N], []. split; [apply fewer_signatures_accepted|].
   split; [simpl; lia|]. intros [_ [_ [_ [Hl _]]]]. discriminate.
 Qed.
-Print Assumptions C06_gnosis_iff_refuted.
+Print Assumptions C06_legacy_gnosis_iff_refuted.
 
-(* "never Panic" fails: one entry more than there are signers *)
-Theorem C06_gnosis_never_panics_refuted :
-  exists ks m signers sigs, c_validate_sigs Gnosis ks m signers sigs = Panic.
+(* "never Panic" failed: one entry more than there are signers *)
+Theorem C06_legacy_gnosis_never_panics_refuted :
+  exists ks m signers sigs, c_legacy_validate_sigs Gnosis ks m signers sigs = Panic.
 Proof. eexists _, _, _, _. apply (more_signatures_panic Gnosis). Qed.
-Print Assumptions C06_gnosis_never_panics_refuted.
+Print Assumptions C06_legacy_gnosis_never_panics_refuted.
 
-(* the service flavour has both failures, and admits a message in which exactly one of the
-   two lists is empty, whatever the other holds *)
-Theorem C06_service_iff_refuted :
+(* the service flavour had both failures, and admitted a message in which exactly one of the
+   two lists is empty, whatever the other held *)
+Theorem C06_legacy_service_iff_refuted :
   (exists ks m signers sigs,
-      c_validate_sigs Service ks m signers sigs = Accept /\ signers <> [] /\ sigs = [] /\
+      c_legacy_validate_sigs Service ks m signers sigs = Accept /\ signers <> [] /\ sigs = [] /\
       ~ sig_rule tuple (fun t => t) Service ks m signers sigs) /\
   (exists ks m signers sigs,
-      c_validate_sigs Service ks m signers sigs = Accept /\ signers = [] /\ sigs <> []) /\
+      c_legacy_validate_sigs Service ks m signers sigs = Accept /\ signers = [] /\ sigs <> []) /\
   (exists ks m signers sigs,
-      c_validate_sigs Service ks m signers sigs = Accept /\
+      c_legacy_validate_sigs Service ks m signers sigs = Accept /\
       (0 < length sigs < length signers)%nat) /\
-  (exists ks m signers sigs, c_validate_sigs Service ks m signers sigs = Panic).
+  (exists ks m signers sigs, c_legacy_validate_sigs Service ks m signers sigs = Panic).
 Proof.
   repeat split.
   - exists wit_ks, (wit_msg Service), [7%N; 7%N; 7%N], [].
@@ -58,92 +163,18 @@ Proof.
     split; [apply (one_of_two_signatures_accepted Service) | simpl; lia].
   - eexists _, _, _, _. apply (more_signatures_panic Service).
 Qed.
-Print Assumptions C06_service_iff_refuted.
-
-(* ---- the rule on the complement of the failing class *)
-
-(* PARTIAL: restricted by [length sigs = length signers]; without it the statement is false
-   (refutations above). For every hash-tree-root function, keyper set of fewer than 2^31
-   members, message, signer list and signature list of the same length: the Gnosis validator
-   accepts iff the identity list fits the signature data (at most 1024 entries) and there are
-   exactly threshold signers, strictly increasing, inside the keyper set, one signature per
-   signer, each the signature of the listed keyper over the message's own (instance, eon,
-   slot, tx pointer, identities); and it does not panic. *)
-Theorem C06_gnosis_iff_partial :
-  forall (H : Type) (H_eqb : H -> H -> bool) (hash : tuple -> H),
-    (forall a b, H_eqb a b = true <-> a = b) ->
-    forall ks m signers sigs,
-      (Z.of_nat (length (ks_keypers ks)) < 2 ^ 31)%Z ->
-      length sigs = length signers ->
-      (validate_sigs H H_eqb hash Gnosis ks m signers sigs = Accept <->
-       (length (m_ids m) <= 1024)%nat /\ sig_rule H hash Gnosis ks m signers sigs)
-      /\ validate_sigs H H_eqb hash Gnosis ks m signers sigs <> Panic.
-Proof. exact gnosis_iff_equal_lengths. Qed.
-Print Assumptions C06_gnosis_iff_partial.
-
-(* PARTIAL (same restriction): the service validator accepts iff both lists are empty or the
-   same rule holds over (instance, eon, identities). *)
-Theorem C06_service_iff_partial :
-  forall (H : Type) (H_eqb : H -> H -> bool) (hash : tuple -> H),
-    (forall a b, H_eqb a b = true <-> a = b) ->
-    forall ks m signers sigs,
-      (Z.of_nat (length (ks_keypers ks)) < 2 ^ 31)%Z ->
-      length sigs = length signers ->
-      (validate_sigs H H_eqb hash Service ks m signers sigs = Accept <->
-       (signers = [] /\ sigs = []) \/
-       ((length (m_ids m) <= 1024)%nat /\ sig_rule H hash Service ks m signers sigs))
-      /\ validate_sigs H H_eqb hash Service ks m signers sigs <> Panic.
-Proof. exact service_iff_equal_lengths. Qed.
-Print Assumptions C06_service_iff_partial.
-
-(* PARTIAL (same restriction, and no statement yet about changing a signature): with a
-   hash-tree-root injective on the tuples it is defined on, an accepted message with at least
-   one signer is rejected after any change of a signed field - instance, eon, any identity or
-   their order or number, and for Gnosis slot and tx pointer. *)
-Theorem C06_field_binding_partial :
-  forall (H : Type) (H_eqb : H -> H -> bool) (hash : tuple -> H),
-    (forall a b, H_eqb a b = true <-> a = b) ->
-    (forall t t', hashable t = true -> hashable t' = true -> hash t = hash t' -> t = t') ->
-    forall fl ks m m' signers sigs,
-      (Z.of_nat (length (ks_keypers ks)) < 2 ^ 31)%Z ->
-      length sigs = length signers -> signers <> [] ->
-      validate_sigs H H_eqb hash fl ks m signers sigs = Accept ->
-      differs_in_signed_field fl m m' ->
-      exists r, validate_sigs H H_eqb hash fl ks m' signers sigs = Reject r.
-Proof.
-  intros H H_eqb hash Hs Hi fl ks m m' signers sigs. apply accept_binds_tuple_equal_lengths; assumption.
-Qed.
-Print Assumptions C06_field_binding_partial.
-
-(* The access node accepts exactly when its own common checks and ValidateDecryptionKeysBasic
-   pass and the very same signature function accepts for the keyper set it stores for the
-   message's eon; the keyper's ValidateMessage is the same composition over the database's
-   keyper set. Neither adds a panic of its own. *)
-Theorem C06_accessnode_same_rule :
-  forall (H : Type) (H_eqb : H -> H -> bool) (hash : tuple -> H) st lookup m signers sigs,
-    (an_validate H H_eqb hash st m signers sigs = Accept <->
-     an_validate_common st m = Accept /\ validate_basic m = Accept /\
-     exists ks, lookup_ks (an_keypersets st) (m_eon m) = Some ks /\
-                validate_sigs H H_eqb hash Gnosis ks m signers sigs = Accept) /\
-    (keyper_validate_gnosis H H_eqb hash lookup m signers sigs = Accept <->
-     validate_basic m = Accept /\
-     exists ks, lookup = Some ks /\ validate_sigs H H_eqb hash Gnosis ks m signers sigs = Accept).
-Proof.
-  intros. split; [apply an_validate_accept | apply keyper_validate_accept].
-Qed.
-Print Assumptions C06_accessnode_same_rule.
+Print Assumptions C06_legacy_service_iff_refuted.
 
 (* ---- the hypotheses are satisfiable on concrete, non-trivial states *)
 
 (* keyper set {1, 4}, threshold 2, both sign the message's own tuple: the executable instance
-   meets the premises on H_eqb and hash, the validators accept, and the theorem then yields the
-   rule for that message *)
-Example C06_iff_partial_nonvacuous :
+   meets the premises on H_eqb and hash, the validators accept, and the theorems then yield
+   the rule for that message *)
+Example C06_iff_nonvacuous :
   (forall a b, tuple_eqb a b = true <-> a = b) /\
   forall fl,
     let sigs := [wit_good fl 1%N; wit_good fl 4%N] in
     c_validate_sigs fl wit_ks (wit_msg fl) [0%N; 1%N] sigs = Accept /\
-    length sigs = length [0%N; 1%N] /\
     (Z.of_nat (length (ks_keypers wit_ks)) < 2 ^ 31)%Z /\
     hashable (signed_tuple fl (wit_msg fl)) = true /\
     sig_rule tuple (fun t => t) fl wit_ks (wit_msg fl) [0%N; 1%N] sigs.
@@ -151,37 +182,53 @@ Proof.
   split; [exact tuple_eqb_spec|]. intros fl sigs.
   assert (A : c_validate_sigs fl wit_ks (wit_msg fl) [0%N; 1%N] sigs = Accept)
     by (destruct fl; vm_compute; reflexivity).
-  assert (L : length sigs = length [0%N; 1%N]) by reflexivity.
   assert (B : (Z.of_nat (length (ks_keypers wit_ks)) < 2 ^ 31)%Z) by (vm_compute; reflexivity).
-  split; [exact A|]. split; [exact L|]. split; [exact B|]. split.
+  split; [exact A|]. split; [exact B|]. split.
   - destruct fl; vm_compute; reflexivity.
   - destruct fl.
-    + apply (C06_gnosis_iff_partial tuple tuple_eqb (fun t => t) tuple_eqb_spec _ _ _ _ B L) in A. apply A.
-    + apply (C06_service_iff_partial tuple tuple_eqb (fun t => t) tuple_eqb_spec _ _ _ _ B L) in A.
+    + apply (C06_gnosis_iff tuple tuple_eqb (fun t => t) tuple_eqb_spec _ _ _ _ B) in A. apply A.
+    + apply (C06_service_iff tuple tuple_eqb (fun t => t) tuple_eqb_spec _ _ _ _ B) in A.
       destruct A as [[E _]|A]; [discriminate | apply A].
 Qed.
 
+(* the service flavour's extra case, and its two neighbours that are now rejected *)
+Example C06_service_empty_case :
+  c_validate_sigs Service wit_ks (wit_msg Service) [] [] = Accept /\
+  c_validate_sigs Service wit_ks (wit_msg Service) [0%N; 1%N] [] = Reject RSigCount /\
+  c_validate_sigs Service wit_ks (wit_msg Service) [] [SigMalformed] = Reject RSignerCount /\
+  c_validate_sigs Gnosis wit_ks (wit_msg Gnosis) [] [] = Reject RSignerCount.
+Proof. vm_compute. repeat split; reflexivity. Qed.
+
 (* a changed slot (Gnosis) / a swapped identity order (service) is a change of a signed field,
-   and the validators then reject the same signatures *)
+   a replaced second signature is a change of the signature list; all are rejected *)
 Example C06_field_binding_nonvacuous :
   let m' := Build_keysmsg 42 7 ExGnosis 1001 3 (m_keys (wit_msg Gnosis)) in
   let s' := Build_keysmsg 42 7 ExService 0 0 (rev (m_keys (wit_msg Service))) in
-  differs_in_signed_field Gnosis (wit_msg Gnosis) m' /\
+  m_slot m' <> m_slot (wit_msg Gnosis) /\
   c_validate_sigs Gnosis wit_ks m' [0%N; 1%N] [wit_good Gnosis 1%N; wit_good Gnosis 4%N]
   = Reject RInvalidSig /\
-  differs_in_signed_field Service (wit_msg Service) s' /\
+  m_ids s' <> m_ids (wit_msg Service) /\
   c_validate_sigs Service wit_ks s' [0%N; 1%N] [wit_good Service 1%N; wit_good Service 4%N]
+  = Reject RInvalidSig /\
+  c_validate_sigs Gnosis wit_ks (wit_msg Gnosis) [0%N; 1%N] [wit_good Gnosis 1%N; wit_good Gnosis 1%N]
   = Reject RInvalidSig.
-Proof.
-  repeat split.
-  - right. right. right. split; [reflexivity|]. left. vm_compute. discriminate.
-  - right. right. left. vm_compute. discriminate.
-Qed.
+Proof. vm_compute. repeat split; try reflexivity; discriminate. Qed.
 
-(* an access node state holding the keyper set for eon 7 accepts the witness message *)
+(* an access node state holding the keyper set for eon 7 accepts the witness message, rejects
+   it with a foreign second signature, and without the stored set *)
 Example C06_accessnode_nonvacuous :
   let st := Build_an_state 42 500 [7%N] [(7%N, wit_ks)] in
   c_an_validate st (wit_msg Gnosis) [0%N; 1%N] [wit_good Gnosis 1%N; wit_good Gnosis 4%N] = Accept /\
   c_an_validate st (wit_msg Gnosis) [0%N; 1%N] [wit_good Gnosis 1%N; wit_good Gnosis 2%N]
-  = Reject RInvalidSig.
-Proof. vm_compute. split; reflexivity. Qed.
+  = Reject RInvalidSig /\
+  c_an_validate (Build_an_state 42 500 [7%N] []) (wit_msg Gnosis) [0%N; 1%N]
+                [wit_good Gnosis 1%N; wit_good Gnosis 4%N] = Reject RNoKeyperSet.
+Proof. vm_compute. repeat split; reflexivity. Qed.
+
+(* the inputs that refute the legacy validators are rejected by the repaired ones *)
+Example C06_legacy_witnesses_now_rejected :
+  forall fl,
+    c_validate_sigs fl wit_ks (wit_msg fl) [0%N; 1%N] [] = Reject RSigCount /\
+    c_validate_sigs fl wit_ks (wit_msg fl) [0%N; 1%N]
+                    [wit_good fl 1%N; wit_good fl 4%N; SigMalformed] = Reject RSigCount.
+Proof. intros fl. pose proof (repaired_rejects_witnesses fl) as [A [_ [B _]]]. split; assumption. Qed.
